@@ -180,5 +180,5 @@ def case(ctx, i, rec):
 def reach(ctx, agg):
     need = {"branch:nodes:untouched": 20, "branch:nodes:untouched+warning": 5, "branch:nodes:written-merged": 10,
             "branch:nodes:cleared+default": 5, "branch:mutations:written-merged": 3,
-            "branch:mutations:untouched+warning": 2, "kind:late_bad_row": 10, "kind:mn_maximum": 10}
+            "branch:mutations:untouched+warning": 2, "kind:late_bad_row": 10, "kind:mn_maximum": 10, "kind:tsdate_default": 10}
     return [f"{k} = {agg.cnt.get(k, 0)} < {v}" for k, v in need.items() if agg.cnt.get(k, 0) < v]
